@@ -164,12 +164,20 @@ func (r *DataReader) ResolverLocation(q []byte, ip string) (*Location, error) {
 // If we find a match, Location will contain the matching LocationID and ECS
 // option will have SourceScope set.
 func (r *DataReader) EcsLocation(q []byte, ecs *dns.EDNS0_SUBNET) (*Location, error) {
+	family, address, prefixLen := ecs.Family, ecs.Address, int(ecs.SourceNetmask)
+	if ip4 := address.To4(); family == 2 && ip4 != nil && prefixLen >= 96 {
+		// An IPv4-mapped IPv6 client subnet ::ffff:a.b.c.d/(96+n) is the IPv4 subnet
+		// a.b.c.d/n. The drivers recognise IPv4 by To4() and add the 96 bits
+		// themselves: hand them the IPv4 form, or the 128-bit prefix length counted
+		// twice lets subnets longer than the client's own prefix match.
+		family, address, prefixLen = 1, ip4, prefixLen-96
+	}
 	bits := 8 * net.IPv4len
-	if ecs.Family == 2 {
+	if family == 2 {
 		bits = 8 * net.IPv6len
 	}
-	mask := net.CIDRMask(int(ecs.SourceNetmask), bits)
-	ipnet := net.IPNet{IP: ecs.Address, Mask: mask}
+	mask := net.CIDRMask(prefixLen, bits)
+	ipnet := net.IPNet{IP: address, Mask: mask}
 
 	loc, err := r.findLocation(q, []byte{0, '8'}, &ipnet)
 	if err != nil {
